@@ -121,6 +121,42 @@ def run_case(arg):
                 oc.inc("images")
                 oc.inc("huge_files")
                 return oc
+            if kind == "manyheaders":
+                # a directory whose neighbouring entries never share an inode metadata block: one header per entry, more headers
+                # than the 16 bit index count of the extended directory inode can announce
+                n = (66000, 65535, 70000)[idx % 3]
+                pf = os.path.join(work, "list.txt")
+                with open(pf, "w") as f:
+                    for i in range(600):
+                        f.write("pipe /t/p%04d 0644 0 0\n" % i)
+                    for k in range(n):
+                        f.write("link /d/l%05d 0 0 0 /t/p%04d\n" % (k, 0 if k % 2 == 0 else 599))
+                img = os.path.join(work, "out.sqfs")
+                res = core.run_tool([binaries["gensquashfs"], "-q", "-c", "gzip", "-F", pf, img], timeout=900, cwd=work)
+                oc.features = ("manyheaders", n)
+                oc.sample = {"case": "%d directory headers" % n, "exit": res.rc}
+                if res.san:
+                    oc.violate("c03:" + res.san, "gensquashfs", {"stderr.txt": res.err})
+                    return oc
+                if res.hang:
+                    oc.inconclusive.append("timeout")
+                    return oc
+                if res.rc != 0:
+                    oc.inc("refused")          # refusing what cannot be represented is fine
+                    oc.inc("images")
+                    return oc
+                try:
+                    im = sqfsimg.parse(open(img, "rb").read(), want_content=False)
+                except sqfsimg.ParseError as e:
+                    oc.violate("c03:unparseable", str(e)[:300])
+                    return oc
+                for rule, where, detail in im.problems:
+                    oc.violate("c03:" + rule, "%s %s" % (where, detail))
+                for rule, cnt in im.evals.items():
+                    oc.inc("rule:" + rule, cnt)
+                oc.inc("images")
+                oc.inc("many_header_dirs")
+                return oc
             if kind == "layout":
                 lk = LAYOUT_KINDS[idx % len(LAYOUT_KINDS)]
                 if lk == "many-frag-blocks":
@@ -175,7 +211,8 @@ def main(tier):
     build.build("asan")
     nl, nr = (35, 115) if tier == "quick" else (350, 2200)
     items = [("layout", i, tier) for i in range(nl)] + [("dirsize", i, tier) for i in range(len(c01.DIRSIZE_TARGETS))] + \
-        [("random", i, tier) for i in range(nr)] + [("huge", i, tier) for i in range(1 if tier == "quick" else 3)]
+        [("random", i, tier) for i in range(nr)] + [("huge", i, tier) for i in range(1 if tier == "quick" else 3)] + \
+        ([("manyheaders", i, tier) for i in range(3)] if tier != "quick" else [])
     only = os.environ.get("VERIF_ONLY")
     if only:
         k, i = only.split(":")
